@@ -161,7 +161,7 @@ func run(cfg *runCfg, mode string) int {
 			fmt.Fprintf(os.Stderr, "ENGINE-ERROR: contract for unknown function %s (%s:%d)\n", k, ct.File, ct.Line)
 			return 2
 		}
-		if cfg.prop != "" && !contractMentions(ct, cfg.prop) && !protoMentions(cs, ct.Pkg, cfg.prop) {
+		if cfg.prop != "" && !contractMentions(ct, cfg.prop) && !protoMentions(cs, ct.Pkg, cfg.prop) && !objInvMentions(cs, ct.Pkg, cfg.prop) {
 			continue
 		}
 		if re != nil && !re.MatchString(ct.Key) {
@@ -255,6 +255,15 @@ func (g *Gen) lookupIface(ct *Contract) bool {
 func protoMentions(cs *ContractSet, pkg, prop string) bool {
 	for _, fp := range cs.FieldProto {
 		if fp.Pkg == pkg && (hasProp(fp.Props, prop) || (len(fp.Props) == 0 && prop == "C16")) {
+			return true
+		}
+	}
+	return false
+}
+
+func objInvMentions(cs *ContractSet, pkg, prop string) bool {
+	for _, oi := range cs.ObjInvs {
+		if oi.Pkg == pkg && (hasProp(oi.Props, prop) || (len(oi.Props) == 0 && prop == "C07")) {
 			return true
 		}
 	}
